@@ -14,7 +14,7 @@ RULE = ('virtual clock; every real main_loop iteration is watched by: retransmis
         'retries (IKE_SA_INIT, CREATE_CHILD_SA, IKE rekey), also when 1-2 copies of the original request had been lost and retransmitted before the COOKIE / INVALID_KE_PAYLOAD answer; (3) a partition injected after EVERY micro-step of scripted histories of every '
         'exchange kind (half of the runs with background noise: every later iteration is woken by a datagram for an unknown SPI or an unhandled kernel message), then both sides must have emptied their SAD by T + dpd + 20 s + 3 ticks; (4) idle pairs run to 2x lifetime with dpd in '
         '{5, 60} and lifetime in {20, 100}: rekey starts within [lifetime, lifetime+5 s+slack]; (5) a peer that answers every rekey with TEMPORARY_FAILURE '
-        '(responses built by the harness with the real keys): DELETE(IKE) within 2 ticks of scheduled rekey time + 30 s; (6) two IKE_SAs with the same peer (simultaneous initiation) rekey one after the other with their first transmissions lost; (7) one-way partitions: everything one side sends is lost while the peer\'s own request, its retransmissions and late copies of old responses keep arriving; the unanswerable request obeys the same retransmission rules and the IKE_SA with its kernel SAs is gone within the budget; (8) the peer restarts without state and sets up a new IKE_SA from the same address that hears authentic traffic more often than the DPD interval: the OLD IKE_SA is still probed and removed with its kernel SAs within dpd + budget, the new one survives. distinct = run descriptors.')
+        '(responses built by the harness with the real keys): DELETE(IKE) within 2 ticks of scheduled rekey time + 30 s; (6) two IKE_SAs with the same peer (simultaneous initiation) rekey one after the other with their first transmissions lost; (7) one-way partitions: everything one side sends is lost while the peer\'s own request, its retransmissions and late copies of old responses keep arriving; the unanswerable request obeys the same retransmission rules and the IKE_SA with its kernel SAs is gone within the budget; (8) the peer restarts without state and sets up a new IKE_SA from the same address that hears authentic traffic more often than the DPD interval: the OLD IKE_SA is still probed and removed with its kernel SAs within dpd + budget, the new one survives; (9) 420 (thorough 1500) answered exchanges in both directions on ONE IKE_SA, Message IDs far beyond 256: each is complete at once and never retransmitted. distinct = run descriptors.')
 ASSUMPTIONS = ['virtual time only; a tick is one loop iteration on each endpoint after advancing the clock',
                'the scheduled deadline is read from the IKE_SA between iterations; emission-time rules need only the wire']
 SHARDS = {'quick': 8, 'thorough': 16}
@@ -202,6 +202,42 @@ def run_peer_restart(ck, mons, seed, dpd, dt, chatty):
     new = [x for x in sc.a.ctl.ike_sas if x is not old]
     if chatty and not any(x.state.name == 'ESTABLISHED' and x.child_sas for x in new):
         ck.violation('new-ike-sa-of-the-restarted-peer-lost-while-the-old-one-was-cleaned-up', {'table': [x.state.name for x in sc.a.ctl.ike_sas]}, sim.case)
+
+
+def run_many_exchanges(ck, mons, seed, rounds):
+    """(9) a long-lived IKE_SA: hundreds of exchanges in both directions on ONE IKE_SA (Message IDs far beyond 256). Every request whose response is
+    delivered is complete: the requester is ESTABLISHED again at once and sends nothing more when its retransmission timer would have fired."""
+    sc = walk.Scenario(seed, mons, dict(dpd=600, lifetime=36000), handshake=True)
+    sim = sc.sim
+    sim.tick_dt = None
+    sim.case.update({'family': 'many-exchanges', 'rounds': rounds})
+    if not sc.ok:
+        return
+    for k in range(rounds):
+        x = 'A' if k % 3 else 'B'
+        ep = sc.ep(x)
+        sa = next((q for q in ep.ctl.ike_sas if q.state == State.ESTABLISHED), None)
+        if sa is None:
+            ck.violation('ike-sa-lost-during-a-long-series-of-answered-exchanges', {'round': k, 'states': [q.state.name for q in ep.ctl.ike_sas]}, sim.case)
+            return
+        mid = sa.my_msg_id
+        sc.trigger(x, 'dpd' if k % 5 else 'acquire')
+        sim.drain()
+        ck.count('many.exchanges')
+        if sa.state != State.ESTABLISHED or sa.my_msg_id != mid + 1:
+            ck.violation(f"answered-request-not-completed:message-id-{'above-256' if mid > 256 else 'low'}", {'round': k, 'message_id': mid, 'state': sa.state.name, 'my_msg_id_after': sa.my_msg_id}, sim.case)
+            return
+        if k % 25 == 24 or mid in (255, 256, 257, 258):
+            n0 = len(sim.wire)
+            sc.tick(2.5)
+            late = [w for w in sim.wire[n0:] if w[1] == str(ep.addrs[0])]
+            sim.drain()
+            if late:
+                ck.violation('answered-request-retransmitted-later', {'round': k, 'message_id': mid}, sim.case)
+                return
+    ck.count('many.runs')
+    ck.seen('many.highest_message_id', max(q.my_msg_id for e in sim.eps.values() for q in e.ctl.ike_sas))
+    ck.nontrivial(('many-exchanges', rounds))
 
 
 def history_steps(sc, script):
@@ -507,6 +543,11 @@ def run(ck):
                     n += 1
                     if ck.mine(n):
                         run_oneway(ck, mk(), base + n, x, kind, ykind, dt, dups)
+    # (9) hundreds of exchanges on one IKE_SA
+    for rounds in ((420,) if not thorough else (420, 900, 1500)):
+        n += 1
+        if ck.mine(n):
+            run_many_exchanges(ck, [m_ for m_ in mk() if not isinstance(m_, monitors.SadMonitor)], base + n, rounds)
     # (8) the peer restarts and comes back with a new IKE_SA
     for dpd, dt in ((6, 1.0), (14, 0.5), (20, 2.0)) if not thorough else ((6, 1.0), (14, 0.5), (20, 2.0), (9, 0.25), (30, 1.0), (60, 2.5)):
         for chatty in (True, False):
@@ -531,6 +572,7 @@ def verdict(ck):
     ck.floor('retry runs in which the original request had already been retransmitted', c['retry.runs_after_the_original_had_been_retransmitted'], 40)
     ck.floor('retry runs', sum(v for k, v in c.items() if k.startswith('retry.runs.')), 40)
     ck.floor('peer-restart runs in which the old IKE_SA was gone in time', c['restart.old_ike_sa_gone_in_time'], 5)
+    ck.floor('answered exchanges on one long-lived IKE_SA', c['many.exchanges'], 400)
     ck.floor('one-way partition runs', c['oneway.runs'], 40)
     ck.floor('one-way partition runs that ended within the budget', c['oneway.gone_in_time'], 40)
     ck.floor('partition points', c['partition.runs'], 100)
